@@ -78,7 +78,10 @@ def slice_with_bool_dask_array(x, index):
         # Trigger eager chunk validation to match legacy behavior
         # This will raise if x and index have incompatible chunks
         _ = y.chunks
-        result = BooleanIndexFlattened(y.expr)
+        # the number of (unknown-size) blocks advertised below is a literal of
+        # y's current layout: pin it, so that a rewrite of y onto other chunks
+        # cannot leave the two out of step
+        result = BooleanIndexFlattened(y.freeze_chunks().expr)
         return new_collection(result), out_index
 
     # Case 2: 1D boolean arrays on specific dimensions
